@@ -510,8 +510,22 @@ def run_property(ctx):
         if spec.get('srctab'):
             from . import srctab
             srctab.run(ctx)
+        loops = None
+        if spec.get('srcloops'):
+            from . import srcloops
+            loops = srcloops.run(ctx, spec['srcloops'])
         for s in spec['suites']:
             run_suite(ctx, s)
+        if loops:
+            status, detail, info = loops
+            ctx.suite_stats.append(dict(suite='S-srcloops', cases=0, distinct_nontrivial=0, mismatches=0, ops={}, samples=[],
+                                        rule='no inputs: the loop nests of the source, translated, are proved equal to the model for all n', exhaustive=False, profile='-', source_loops=info))
+            if status == 'obligation-failed' and not any(not no_input for _, no_input in ctx.violations):
+                ctx.violation({'kind': 'proof-obligation', 'key': 'srcloops:' + ctx.pid,
+                               'broken': 'an obligation about the loop nests regenerated from %s no longer checks (no_underflow_* / fam_* / source_loops / source_queens, Gen/SrcLoops.v)' % info.get('source'),
+                               'detail': detail}, no_input=True)
+            elif status == 'shape-not-recognised':
+                ctx.notes.append('source loops: the translator does not recognise the shape of the generator any more (%s); the obligations were not re-derived in this run' % detail)
     except build.BuildError as e:
         ctx.log('cannot run: ' + str(e))
         ctx.notes.append('build error: ' + str(e)[:2000])
